@@ -6,6 +6,7 @@ import Mathlib.Algebra.Order.Ring.Defs
 import Mathlib.Algebra.Order.Field.Basic
 import Mathlib.Tactic.Ring
 import Mathlib.Tactic.Linarith
+import Std.Data.String.ToNat
 namespace NgVerif.Mesh
 
 theorem u32s_length (l : List Nat) : (u32s l).length = 4 * l.length := by
@@ -169,5 +170,63 @@ theorem affine_orientation (m : M3 K) (t p : V3 K) (vs : List (V3 K)) (tr : Nat 
     exact ⟨fun ho => mul_pos h ho, fun ho => mul_neg_of_pos_of_neg h ho, fun ho => by rw [ho]; simp⟩
 
 end AffineModel
+
+/-! ### `link_mesh_fragments`: one exclusive-create file per CSV row -/
+
+theorem linkName_injective (dir : String) (nc : Bool) (l l' : Nat)
+    (h : linkName dir l nc = linkName dir l' nc) : l = l' := by
+  unfold linkName at h
+  rw [String.append_left_inj] at h
+  rw [String.append_right_inj] at h
+  exact Nat.repr_inj.mp h
+
+theorem linkGet_cons (s : LinkStore) (n m : String) (fr : List String) :
+    linkGet ((n, fr) :: s) m = if n = m then some fr else linkGet s m := by
+  unfold linkGet
+  by_cases h : n = m <;> simp [h]
+
+theorem links_spec (dir : String) (nc : Bool) (rows : List (Nat × List String)) :
+    ∀ s : LinkStore, (rows.map (·.1)).Nodup →
+    (∀ r ∈ rows, linkGet s (linkName dir r.1 nc) = none) →
+    (links dir nc rows s).2 = true ∧
+    (∀ r ∈ rows, linkGet (links dir nc rows s).1 (linkName dir r.1 nc) = some r.2) ∧
+    (∀ name, (∀ r ∈ rows, name ≠ linkName dir r.1 nc) → linkGet (links dir nc rows s).1 name = linkGet s name) := by
+  induction rows with
+  | nil => intro s _ _; simp [links]
+  | cons r rest ih =>
+    intro s hnd hfree
+    obtain ⟨l, fr⟩ := r
+    simp only [List.map_cons, List.nodup_cons] at hnd
+    have h0 : linkGet s (linkName dir l nc) = none := hfree (l, fr) (by simp)
+    have hfree' : ∀ r ∈ rest, linkGet ((linkName dir l nc, fr) :: s) (linkName dir r.1 nc) = none := by
+      intro r hr
+      rw [linkGet_cons]
+      have hne : linkName dir l nc ≠ linkName dir r.1 nc := by
+        intro he
+        have := linkName_injective dir nc l r.1 he
+        exact hnd.1 (this ▸ List.mem_map_of_mem (f := (·.1)) hr)
+      simp [hne, hfree r (by simp [hr])]
+    obtain ⟨i1, i2, i3⟩ := ih ((linkName dir l nc, fr) :: s) hnd.2 hfree'
+    simp only [links, h0, Option.isSome_none, Bool.false_eq_true, if_false]
+    refine ⟨i1, ?_, ?_⟩
+    · intro r hr
+      rcases List.mem_cons.mp hr with rfl | hr
+      · have hne : ∀ r' ∈ rest, linkName dir l nc ≠ linkName dir r'.1 nc := by
+          intro r' hr' he
+          have := linkName_injective dir nc l r'.1 he
+          exact hnd.1 (this ▸ List.mem_map_of_mem (f := (·.1)) hr')
+        rw [i3 _ hne, linkGet_cons]; simp
+      · exact i2 r hr
+    · intro name hn
+      rw [i3 name (fun r hr => hn r (by simp [hr])), linkGet_cons]
+      have : linkName dir l nc ≠ name := fun h => hn (l, fr) (by simp) h.symm
+      simp [this]
+
+/-- a label that occurs twice (or whose file is already there, e.g. on a second run) aborts the run at that row,
+    with the earlier rows' files in place and the existing file untouched -/
+theorem links_existing_aborts (dir : String) (nc : Bool) (l : Nat) (fr : List String) (rest : List (Nat × List String))
+    (s : LinkStore) (h : (linkGet s (linkName dir l nc)).isSome) :
+    links dir nc ((l, fr) :: rest) s = (s, false) := by
+  simp [links, h]
 
 end NgVerif.Mesh
